@@ -91,7 +91,10 @@ TryPop == /\ Ev("TryPop") /\ ts # <<>>
           /\ (CASE mode = "unw" -> (Top.c = 0 /\ Top.f = 0 /\ Top.kind = "region")                 \* spent frame
                                   \/ (ucls # "catchable" /\ Top.kind # "marker")                   \* uncatchable skips regions
                [] mode = "run" -> Top.kind = "marker" \/ (Top.ph \in {"body", "catch"} /\ Top.f = 0) \/ Top.ph \in {"leaving", "finally"}
-               [] mode = "gounw" -> Top.kind = "marker" \/ Top.ph \in {"leaving", "finally"})
+               [] mode = "gounw" -> Top.kind = "marker" \/ Top.ph \in {"leaving", "finally"}
+                                    \* an uncatchable payload that left a generator's finally entered by return() drops the rest of
+                                    \* the generator's regions on its way out (generator.abort), running none of them
+                                    \/ (ucls # "catchable" /\ Top.kind # "marker"))
           /\ ts' = PopTs /\ UNCHANGED <<isq, cs, api, saved, intr>>
           /\ (IF Len(ms) > 1 /\ Len(ts) - 1 = ms[Len(ms)].base THEN ms' = SubSeq(ms, 1, Len(ms) - 1) ELSE ms' = ms)
           /\ Agree
